@@ -127,7 +127,7 @@ NAME_OF_W = {10: "ATE", 11: "ATC", 12: "ATP", 13: "ATS", 1: "LB", 2: "RB", 3: "Q
              7: "SP", 8: "ESC", 9: "HASH", 21: "W1", 22: "W2", 23: "WB", 24: "WA"}
 KIND_OF_NAME = {"ATE": "ATE", "ATC": "ATC", "ATP": "ATP", "ATS": "ATS", "LB": "LB", "RB": "RB", "QT": "QT",
                 "CM": "CM", "EQ": "EQ", "NL": "NL", "SP": "SP", "ESC": "ESC", "HASH": "H", "W1": "W", "W2": "W", "WB": "W", "WA": "W"}
-ATE_SPELL = ["@a", "@Article", "@book ", "@x1\t", "@commentary", "@stringent", "@Preambles", "@é", "@"]
+ATE_SPELL = ["@a", "@Article", "@book ", "@x1\t", "@commentary", "@stringent", "@Preambles", "@é", "@", "@Straße", "@ΛΌΓΟΣ ", "@ſtring", "@ǅx"]
 ATC_SPELL = ["@comment", "@Comment", "@COMMENT "]
 ATP_SPELL = ["@preamble", "@Preamble\t"]
 ATS_SPELL = ["@string", "@String ", "@STRING"]
